@@ -22,5 +22,6 @@ PROP = dict(
         E("enum", "A", "./c07", "TestC07Enum", 1, 1),
         R("words", "A", "./c07", "TestC07Words", (8000, 4), (300000, 16)),
         R("texts", "A", "./c07", "TestC07Texts", (10000, 4), (300000, 16)),
+        F("fuzz", "./c07", "FuzzC07", 120),
     ],
 )
